@@ -80,6 +80,7 @@ func runC04(t *testing.T, seed uint64, m *Mask) *Report {
 			op.HStatus[2] = genRunes(r, r.Intn(30), alpha)
 		case "panic":
 			op.HPanic = true
+			op.HPanicKind = r.Intn(6)
 		case "notfound":
 			op.Route = "/no/such/method"
 			op.Codec = 'j'
